@@ -330,14 +330,15 @@ func (j *judge) ports(ols []oneLiner, pr portRule) {
 func (j *judge) script(body string, custom bool, what string) {
 	n := 0
 	for _, l := range strings.Split(body, "\n") {
+		rest := fpRe.ReplaceAllString(l, "sha256//FP") // base64 may itself hold "/i/" or "/o/"
 		for _, m := range fpRe.FindAllStringSubmatch(l, -1) {
 			site := siteOther
 			switch {
 			case custom:
 				site = siteCustom
-			case strings.Contains(l, "/i/"):
+			case strings.Contains(rest, "/i/"):
 				site = siteI
-			case strings.Contains(l, "/o/"):
+			case strings.Contains(rest, "/o/"):
 				site = siteO
 			default:
 				site = "script-other"
